@@ -223,10 +223,31 @@ def inference_entry(rep, ex: Explorer, cls: str, kind="cond", extra_state=None, 
 def start_strict(rep, site, paths, prefix, solver_check):
     n = 0
     for p in paths:
-        if decided(p, ("truthy", "weakly")) is not False or p.outcome[0] != "return":
+        # a path that never consults the mode flag is taken in strict mode as well
+        if decided(p, ("truthy", "weakly")) is True or p.outcome[0] != "return":
             continue
         rcs = [ev for ev, Q in iter_events(p.events) if ev.kind == "reccall"]
         if not rcs:
+            # an answer given in front of the layer recursion must follow from the query alone: True only when A∧¬B is
+            # unsatisfiable, False only when A∧B is unsatisfiable (and A∧¬B satisfiable)
+            from ..harness import sat_literals
+            lits, other = sat_literals(p)
+            unread = [k for k, v in other if k[0] in ("sat", "check")]
+            g = ("and", tuple(lits))
+            rv = p.outcome[1]
+            out = rv.value if isinstance(rv, Const) and isinstance(rv.value, bool) else None
+            if unread or out is None:
+                rep.violation(f"{prefix}.start", site, "strict answer", "in strict mode the answer is the result of the layer recursion (or follows from the query alone)",
+                              extracted=f"returns {rv!r} in front of the recursion after tests involving the base", required="recursion result", function=site)
+            elif out is True:
+                ok, w = F.guard_implies(g, ("not", ("sat", falsification(QUERY))))
+                rep.check(ok, f"{prefix}.start", site, "strict answer True in front of the recursion", "True without the layers only when A∧¬B is unsatisfiable",
+                          extracted=F.show_guard(g) + (f" holds on {w}" if w else ""), required="⊆ UNSAT(A∧¬B)", function=site)
+            else:
+                want = ("and", (("not", ("sat", verification(QUERY))), ("sat", falsification(QUERY))))
+                ok, w = F.guard_implies(g, want)
+                rep.check(ok, f"{prefix}.start", site, "strict answer False in front of the recursion", "False without the layers only when A∧B is unsatisfiable and A∧¬B is satisfiable",
+                          extracted=F.show_guard(g) + (f" holds on {w}" if w else ""), required="⊆ UNSAT(A∧B) ∧ SAT(A∧¬B)", function=site)
             continue
         n += 1
         rc = rcs[-1]
